@@ -440,4 +440,320 @@ theorem playFrame_core {m : SeqMod} (w : WFacts m) {s s' : St} {eA eB : Eff} (hc
   · rename_i hne
     exact absurd h (hne s')
 
+/-! ## start-up and position control -/
+
+theorem skipInvalid_spec (m : SeqMod) : ∀ (fuel : Nat) (o : Int), 0 ≤ o → (m.len - o).toNat < fuel →
+    0 ≤ skipInvalid m fuel o ∧ (skipInvalid m fuel o < m.len → m.xo (skipInvalid m fuel o) < m.pat) := by
+  intro fuel
+  induction fuel with
+  | zero => intro o _ h; omega
+  | succ n ih =>
+    intro o ho hf
+    unfold skipInvalid
+    split
+    · rename_i hc
+      exact ih (o + 1) (by omega) (by omega)
+    · rename_i hc
+      exact ⟨ho, fun hl => by omega⟩
+
+theorem skipMarker_nonneg (m : SeqMod) (start dir : Int) (hs : 0 ≤ start) : ∀ (fuel : Nat) (pos : Int), 0 ≤ pos →
+    0 ≤ skipMarker m start dir fuel pos := by
+  intro fuel
+  induction fuel with
+  | zero => intro pos h; simpa [skipMarker] using h
+  | succ n ih =>
+    intro pos hp
+    unfold skipMarker
+    split
+    · split
+      · split
+        · exact ih _ (by omega)
+        · exact hp
+      · split
+        · omega
+        · exact ih _ (by omega)
+    · exact hp
+
+/-- fields that `set_position` never writes -/
+def CSame (s s' : St) : Prop :=
+  s'.ord = s.ord ∧ s'.row = s.row ∧ s'.speed = s.speed ∧ s'.bpm = s.bpm ∧ s'.ftBpm = s.ftBpm ∧ s'.st26 = s.st26 ∧
+  s'.loopCount = s.loopCount ∧ s'.frame = s.frame
+
+theorem spBlock_spec {m : SeqMod} {s1 s2 : St} {seq pos' : Int} (h : spBlock m s1 seq pos' = some s2) :
+    CSame s1 s2 ∧ s2.sequence = s1.sequence ∧ s2.pos = s1.pos ∧ s2.jump = s1.jump ∧
+    (s2.jumpline = s1.jumpline ∨ s2.jumpline = 0) ∧
+    (s2.numRows = s1.numRows ∨ s2.numRows = m.rowsOf (if pos' < m.len then m.xo pos' else 0xff)) := by
+  unfold spBlock at h
+  simp only at h
+  generalize (if pos' < m.len then m.xo pos' else 0xff) = patv at h ⊢
+  by_cases h1 : patv < m.pat
+  · simp only [h1, if_true] at h
+    by_cases h2 : m.marker = true ∧ patv = 0xff
+    · simp [h2] at h
+    · simp only [h2, if_false] at h
+      by_cases h3 : pos' > geti m.scanOrd seq
+      · simp only [h3, if_true, Option.some.injEq] at h; subst h
+        exact ⟨⟨rfl, rfl, rfl, rfl, rfl, rfl, rfl, rfl⟩, rfl, rfl, rfl, Or.inl rfl, Or.inl rfl⟩
+      · simp only [h3, if_false, Option.some.injEq] at h; subst h
+        exact ⟨⟨rfl, rfl, rfl, rfl, rfl, rfl, rfl, rfl⟩, rfl, rfl, rfl, Or.inr rfl, Or.inr rfl⟩
+  · simp only [h1, if_false, Option.some.injEq] at h; subst h
+    exact ⟨⟨rfl, rfl, rfl, rfl, rfl, rfl, rfl, rfl⟩, rfl, rfl, rfl, Or.inl rfl, Or.inl rfl⟩
+
+theorem spCommit_spec (m : SeqMod) (s2 : St) (pos' : Int) :
+    CSame s2 (spCommit m s2 pos') ∧ (spCommit m s2 pos').sequence = s2.sequence ∧
+    (spCommit m s2 pos').numRows = s2.numRows ∧
+    ((pos' < m.len ∧ (spCommit m s2 pos').pos = (if pos' = 0 then -1 else pos') ∧ (spCommit m s2 pos').jump = -1 ∧
+        (spCommit m s2 pos').jumpline = 0) ∨
+     (¬ pos' < m.len ∧ spCommit m s2 pos' = s2)) := by
+  by_cases h : pos' < m.len
+  · have e : spCommit m s2 pos' = resetFlow { s2 with pos := if pos' = 0 then -1 else pos' } := by
+      unfold spCommit; rw [if_pos h]
+    rw [e]
+    exact ⟨⟨rfl, rfl, rfl, rfl, rfl, rfl, rfl, rfl⟩, rfl, rfl, Or.inl ⟨h, rfl, rfl, rfl⟩⟩
+  · have e : spCommit m s2 pos' = s2 := by
+      unfold spCommit; rw [if_neg h]
+    rw [e]
+    exact ⟨⟨rfl, rfl, rfl, rfl, rfl, rfl, rfl, rfl⟩, rfl, rfl, Or.inr ⟨h, rfl⟩⟩
+
+theorem core_of_csame {m : SeqMod} {s s' : St} (hc : Core m s) (k : CSame s s')
+    (h1 : 0 ≤ s'.sequence ∧ s'.sequence < m.numSeq) (h2 : -2 ≤ s'.pos ∧ s'.pos < m.len) (h3 : -1 ≤ s'.jump)
+    (h4 : 0 ≤ s'.jumpline) : Core m s' := by
+  obtain ⟨k1, k2, k3, k4, k5, k6, _, _⟩ := k
+  exact ⟨h1, by rw [k1]; exact hc.ord, by rw [k1]; exact hc.ordPat, h2, by rw [k2]; exact hc.row, by rw [k3]; exact hc.speed,
+    by rw [k4]; exact hc.bpm, by rw [k5]; exact hc.ftBpm, by rw [k6]; exact hc.st26, h3, h4⟩
+
+theorem csame_trans {a b c : St} (h1 : CSame a b) (h2 : CSame b c) : CSame a c := by
+  unfold CSame at *; omega
+
+/-- `set_position` keeps the range invariant; it never writes ord/row/loop counter. If it
+leaves `pos = ord` then `num_rows` is either untouched or the row count of that order. -/
+theorem setPosition_spec {m : SeqMod} (w : WFacts m) {s : St} (hc : Core m s) (pos dir : Int) (hpos : -1 ≤ pos)
+    (hd : dir = 0 → 0 ≤ pos ∧ pos < m.len) (r : St) (hr : setPosition m s pos dir = r) :
+    Core m r ∧ CSame s r ∧ (r.pos = r.ord → r.numRows = s.numRows ∨ Fresh m r) := by
+  unfold setPosition at hr
+  simp only at hr
+  generalize hq : (if dir = 0 then geti m.seqCtl pos else s.sequence) = q at hr
+  by_cases hff : q = 0xff
+  · rw [if_pos hff] at hr; subst hr
+    exact ⟨hc, ⟨rfl, rfl, rfl, rfl, rfl, rfl, rfl, rfl⟩, fun _ => Or.inl rfl⟩
+  rw [if_neg hff] at hr
+  by_cases hneg : q < 0
+  · rw [if_pos hneg] at hr; subst hr
+    exact ⟨hc, ⟨rfl, rfl, rfl, rfl, rfl, rfl, rfl, rfl⟩, fun _ => Or.inl rfl⟩
+  rw [if_neg hneg] at hr
+  have hq2 : q < m.numSeq := by
+    rw [← hq]; rw [← hq] at hff hneg
+    split
+    · rename_i h0
+      have := w.seqCtl pos (hd h0).1 (hd h0).2
+      simp only [h0, if_true] at hff hneg
+      omega
+    · exact hc.seq.2
+  have hst := w.entry q (by omega) hq2
+  generalize hs1 : ({ s with sequence := q } : St) = s1 at hr
+  have e1 : CSame s s1 ∧ s1.sequence = q ∧ s1.pos = s.pos ∧ s1.jump = s.jump ∧ s1.jumpline = s.jumpline ∧
+      s1.numRows = s.numRows := by
+    subst hs1; exact ⟨⟨rfl, rfl, rfl, rfl, rfl, rfl, rfl, rfl⟩, rfl, rfl, rfl, rfl, rfl⟩
+  obtain ⟨a1, a2, a3, a4, a5, a6⟩ := e1
+  have hc1 : Core m s1 := core_of_csame hc a1 (by rw [a2]; exact ⟨by omega, hq2⟩) (by rw [a3]; exact hc.pos)
+    (by rw [a4]; exact hc.jump) (by rw [a5]; exact hc.jumpline)
+  by_cases hin : 0 ≤ pos ∧ pos < m.len
+  · rw [if_pos hin] at hr
+    generalize hp' : skipMarker m (m.entryOf q) dir 258 pos = pos' at hr
+    have hp'ge : 0 ≤ pos' := by
+      rw [← hp']; exact skipMarker_nonneg m (m.entryOf q) dir hst.1 258 pos hin.1
+    split at hr
+    · subst hr
+      exact ⟨hc1, a1, fun _ => Or.inl a6⟩
+    · rename_i s2 hb
+      obtain ⟨b1, b2, b3, b4, b5, b6⟩ := spBlock_spec hb
+      obtain ⟨c1, c2, c3, c4⟩ := spCommit_spec m s2 pos'
+      rw [hr] at c1 c2 c3 c4
+      have k : CSame s r := csame_trans a1 (csame_trans b1 c1)
+      refine ⟨?_, k, ?_⟩
+      · apply core_of_csame hc k
+        · rw [c2, b2, a2]; exact ⟨by omega, hq2⟩
+        · rcases c4 with ⟨hl, hp, _, _⟩ | ⟨_, he⟩
+          · rw [hp]; split <;> omega
+          · rw [he, b3, a3]; exact hc.pos
+        · rcases c4 with ⟨_, _, hj, _⟩ | ⟨_, he⟩
+          · omega
+          · rw [he, b4, a4]; exact hc.jump
+        · rcases c4 with ⟨_, _, _, hj⟩ | ⟨_, he⟩
+          · omega
+          · rw [he]; have := hc.jumpline; omega
+      · intro hpo
+        rcases c4 with ⟨hl, hp, _, _⟩ | ⟨hl, he⟩
+        · rcases b6 with b6 | b6
+          · left; rw [c3, b6, a6]
+          · right
+            unfold Fresh
+            rw [c3, b6, k.1]
+            rw [hp, k.1] at hpo
+            have : pos' = s.ord := by split at hpo <;> (have := hc.ord; omega)
+            rw [if_pos hl, this]
+        · -- position not committed (pos' ≥ len): the block either returned early or changed nothing
+          left
+          have hmk : pos' = pos ∨ m.marker = true := by
+            rw [← hp']
+            unfold skipMarker
+            by_cases hm : m.marker = true
+            · right; exact hm
+            · left; simp [hm]
+          rcases hmk with h | h
+          · omega
+          · unfold spBlock at hb
+            simp only [if_neg hl] at hb
+            by_cases hp : (255 : Int) < m.pat
+            · simp [hp, h] at hb
+            · simp only [hp, if_false, Option.some.injEq] at hb
+              rw [c3, ← hb, a6]
+  · rw [if_neg hin] at hr
+    obtain ⟨c1, c2, c3, c4⟩ := spCommit_spec m s1 pos
+    rw [hr] at c1 c2 c3 c4
+    have k : CSame s r := csame_trans a1 c1
+    refine ⟨?_, k, ?_⟩
+    · apply core_of_csame hc k
+      · rw [c2, a2]; exact ⟨by omega, hq2⟩
+      · rcases c4 with ⟨hl, hp, _, _⟩ | ⟨_, he⟩
+        · rw [hp]; split <;> omega
+        · rw [he, a3]; exact hc.pos
+      · rcases c4 with ⟨_, _, hj, _⟩ | ⟨_, he⟩
+        · omega
+        · rw [he, a4]; exact hc.jump
+      · rcases c4 with ⟨_, _, _, hj⟩ | ⟨_, he⟩
+        · omega
+        · rw [he, a5]; exact hc.jumpline
+    · intro _; left; rw [c3, a6]
+
+
+theorem start_spec {m : SeqMod} (w : WFacts m) {speed0 : Int} {s : St} (h : start m speed0 = some s) :
+    Core m s ∧ RowInv m s ∧ s.loopCount = 0 := by
+  unfold start at h
+  simp only at h
+  split at h
+  · simp at h
+  · rename_i hlt
+    simp only [Option.some.injEq] at h
+    subst h
+    have sk := skipInvalid_spec m 257 0 (by omega) (by have := w.len; omega)
+    have hss := w.startSpeed
+    generalize skipInvalid m 257 0 = o at *
+    have ho : 0 ≤ o ∧ o < m.len := ⟨sk.1, by omega⟩
+    have hp := sk.2 ho.2
+    have i := w.info o ho.1 ho.2 hp
+    have hx := w.xo o ho.1 (by have := w.len; omega)
+    have hrows := w.rows (m.xo o) hx.1 hp
+    have hsp : 1 ≤ geti m.oSpeed o := by
+      rcases hss with h | h
+      · omega
+      · exact h
+    refine ⟨⟨?_, ho, hp, ?_, ?_, ?_, i.1, i.1, i.2.2.2, ?_, ?_⟩, ⟨?_, ?_⟩, rfl⟩
+    · simp only [resetFlow, updateFromOrdInfo]; have := w.numSeq; omega
+    · simp only [resetFlow, updateFromOrdInfo]; have := w.len; omega
+    · simp [resetFlow, updateFromOrdInfo]
+    · simp only [resetFlow, updateFromOrdInfo]
+      split <;> omega
+    · simp [resetFlow]
+    · simp [resetFlow]
+    · simp only [resetFlow, updateFromOrdInfo]; omega
+    · intro _; rfl
+
+def isPosCall : Ctl → Bool
+  | .setPos _ | .next | .prev | .seek _ => true
+  | _ => false
+
+theorem seekLoop_nonneg (m : SeqMod) (s : St) (t : Int) : ∀ (n : Nat) (i : Int), seekLoop m s t n = some i → 0 ≤ i := by
+  intro n
+  induction n with
+  | zero => intro i h; simp [seekLoop] at h
+  | succ k ih =>
+    intro i h
+    unfold seekLoop at h
+    simp only at h
+    split at h
+    · exact ih i h
+    · split at h
+      · exact ih i h
+      · split at h
+        · simp only [Option.some.injEq] at h; omega
+        · exact ih i h
+
+/-- every position-control call, as a `set_position`-like step -/
+theorem ctl_spec {m : SeqMod} (w : WFacts m) {s : St} (hc : Core m s) (c : Ctl) :
+    Core m (ctl m s c) ∧
+    (RowInv m s → (isPosCall c = true → Fresh m s) → RowInv m (ctl m s c)) := by
+  have sp : ∀ pos dir, -1 ≤ pos → (dir = 0 → 0 ≤ pos ∧ pos < m.len) →
+      Core m (setPosition m s pos dir) ∧
+      (RowInv m s → Fresh m s → RowInv m (setPosition m s pos dir)) := by
+    intro pos dir h1 h2
+    obtain ⟨a, b, c⟩ := setPosition_spec w hc pos dir h1 h2 _ rfl
+    refine ⟨a, fun ri fr => ⟨?_, fun hpo => ?_⟩⟩
+    · rw [b.1, b.2.1]; exact ri.rowLt
+    · rcases c hpo with h | h
+      · unfold Fresh at *; rw [h, b.1]; exact fr
+      · exact h
+  have same : Core m s ∧ (RowInv m s → Fresh m s → RowInv m s) := ⟨hc, fun r _ => r⟩
+  have he := w.entry s.sequence hc.seq.1 hc.seq.2
+  cases c with
+  | setPos p =>
+    simp only [ctl, apiSetPosition, isPosCall]
+    split
+    · exact ⟨hc, fun r _ => r⟩
+    · rename_i h
+      have := sp p 0 (by omega) (fun _ => by omega)
+      exact ⟨this.1, fun r f => this.2 r (f trivial)⟩
+  | next =>
+    simp only [ctl, nextPosition, isPosCall]
+    split
+    · have := sp (s.pos + 1) 1 (by have := hc.pos; omega) (fun h => by omega)
+      exact ⟨this.1, fun r f => this.2 r (f trivial)⟩
+    · exact ⟨hc, fun r _ => r⟩
+  | prev =>
+    simp only [ctl, prevPosition, isPosCall]
+    split
+    · have := sp (-1) (-1) (by omega) (fun h => by omega)
+      exact ⟨this.1, fun r f => this.2 r (f trivial)⟩
+    · split
+      · have := sp (s.pos - 1) (-1) (by omega) (fun h => by omega)
+        exact ⟨this.1, fun r f => this.2 r (f trivial)⟩
+      · exact ⟨hc, fun r _ => r⟩
+  | setRow r =>
+    have hp := hc.pos
+    have hl := w.len
+    have e : (if s.pos < 0 ∨ s.pos ≥ m.len then 0 else s.pos) = (if s.pos < 0 then 0 else s.pos) := by
+      split <;> split <;> omega
+    simp only [ctl, apiSetRow, isPosCall, e]
+    generalize hp1 : (if s.pos < 0 then 0 else s.pos) = p1
+    have hp1r : 0 ≤ p1 ∧ p1 < m.len := by rw [← hp1]; split <;> omega
+    by_cases hg : m.xo p1 ≥ m.pat ∨ r < 0 ∨ r ≥ m.rowsOf (m.xo p1)
+    · rw [if_pos hg]
+      exact ⟨hc, fun r _ => r⟩
+    · rw [if_neg hg]
+      simp only [not_or, Int.not_lt, ge_iff_le, Int.not_le] at hg
+      simp only [Option.getD_some]
+      exact ⟨⟨hc.seq, hp1r, hg.1, ⟨by simp only; omega, hp1r.2⟩, hg.2.1, hc.speed, hc.bpm, hc.ftBpm, hc.st26, hc.jump, hc.jumpline⟩,
+        fun _ _ => ⟨hg.2.2, fun _ => rfl⟩⟩
+  | seek t =>
+    simp only [ctl, seekTime, isPosCall]
+    split
+    · rename_i i hi
+      have := sp i 1 (by have := seekLoop_nonneg m s t _ i hi; omega) (fun h => by omega)
+      exact ⟨this.1, fun r f => this.2 r (f trivial)⟩
+    · simp only [apiSetPosition]
+      split
+      · exact ⟨hc, fun r _ => r⟩
+      · have := sp 0 0 (by omega) (fun _ => by have := w.len; omega)
+        exact ⟨this.1, fun r f => this.2 r (f trivial)⟩
+  | stop =>
+    simp only [ctl, stopModule, isPosCall]
+    refine ⟨⟨hc.seq, hc.ord, hc.ordPat, ⟨by simp only; omega, by have := w.len; simp only; omega⟩, hc.row, hc.speed, hc.bpm, hc.ftBpm, hc.st26, hc.jump,
+      hc.jumpline⟩, fun ri _ => ⟨ri.rowLt, fun h => ?_⟩⟩
+    have := hc.ord; simp only at h; omega
+  | restart =>
+    simp only [ctl, restartModule, isPosCall]
+    refine ⟨⟨hc.seq, hc.ord, hc.ordPat, ⟨by simp only; omega, by have := w.len; simp only; omega⟩, hc.row, hc.speed, hc.bpm, hc.ftBpm, hc.st26, hc.jump,
+      hc.jumpline⟩, fun ri _ => ⟨ri.rowLt, fun h => ?_⟩⟩
+    have := hc.ord; simp only at h; omega
+
 end Xmp.Seq
